@@ -480,6 +480,15 @@ fn item_prefix_start(v: &[T], m: &[usize], kw: usize) -> (usize, usize) {
     (i, vis_start)
 }
 
+/// `pub(in crate)` / `pub(in self)` / `pub(in super)` are respelled without `in` (C01's closed
+/// list: "the spelling of restricted visibility"): canonical form of a visibility.
+fn norm_vis(v: Vec<T>) -> Vec<T> {
+    if v.len() == 5 && v[0].s == "pub" && v[1].s == "(" && v[2].s == "in" && matches!(v[3].s.as_str(), "crate" | "self" | "super") && v[4].s == ")" {
+        return v.into_iter().enumerate().filter(|(i, _)| *i != 2).map(|(_, t)| t).collect();
+    }
+    v
+}
+
 fn toks_str(v: &[T]) -> Vec<String> {
     v.iter().map(|t| t.s.clone()).collect()
 }
@@ -544,7 +553,7 @@ fn canon_reorderable(v: Vec<T>, edition_2015: bool) -> Vec<T> {
             continue;
         }
         let attrs = v[attrs_start..vis_start].to_vec();
-        let vis = v[vis_start..i].to_vec();
+        let vis = norm_vis(v[vis_start..i].to_vec());
         let leaves = match kind {
             1 => match expand_use(&v[i + 1..end]) {
                 Some(ls) => ls
@@ -1243,7 +1252,7 @@ pub fn use_runs(src: &str, edition_2015: bool) -> Option<Vec<Vec<LeafKey>>> {
                 runs.push(std::mem::take(&mut cur));
             }
             let attrs = toks_str(&v[attrs_start..vis_start]);
-            let vis = toks_str(&v[vis_start..i]);
+            let vis = toks_str(&norm_vis(v[vis_start..i].to_vec()));
             for (path, alias) in expand_use(&v[i + 1..end])? {
                 let path = if edition_2015 { path.trim_start_matches("::").to_owned() } else { path };
                 cur.push((attrs.clone(), vis.clone(), path, alias));
